@@ -125,7 +125,10 @@ pub enum Step {
     Clamp { dst: H, a: Option<H>, k: B, d: u8 },
     /// build a basepoint table of the given radix (16/32/64/128/256; Ristretto: 16) from handle a,
     /// check basepoint() and compute table * s
-    Table { g: u8, dst: H, a: H, radix: u16, s: Sc },
+    /// slot: the table object is also kept in this slot of the party's table store (reused by TUse)
+    Table { g: u8, dst: H, a: H, radix: u16, s: Sc, #[serde(default)] slot: u8 },
+    /// n-th use of a table object created earlier by `Table` in `slot`: dst = table * s (and its basepoint())
+    TUse { g: u8, dst: H, slot: u8, s: Sc },
     /// vartime_double_scalar_mul_basepoint(sa, A, sb) = sa*A + sb*B
     Dbl2 { g: u8, dst: H, sa: Sc, a: H, sb: Sc, d: u8 },
     /// entry 0 multiscalar_mul (constant time), 1 vartime_multiscalar_mul, 2 optional_multiscalar_mul.
@@ -136,7 +139,9 @@ pub enum Step {
     /// 2 optional_mixed (None allowed in dh)
     /// it: how the scalar / point streams are delivered: 0 slices, 1 iterators without an exact size hint (filter),
     /// 2 a slice chained with such an iterator
-    Pre { g: u8, dst: H, entry: u8, st: Vec<H>, ss: Vec<Sc>, ds: Vec<Sc>, dh: Vec<Option<H>>, d: u8, #[serde(default)] it: u8 },
+    Pre { g: u8, dst: H, entry: u8, st: Vec<H>, ss: Vec<Sc>, ds: Vec<Sc>, dh: Vec<Option<H>>, d: u8, #[serde(default)] it: u8, #[serde(default)] slot: u8 },
+    /// n-th use of a precomputation object created earlier by `Pre` in `slot` (same static points, new scalars)
+    PUse { g: u8, dst: H, slot: u8, entry: u8, ss: Vec<Sc>, ds: Vec<Sc>, dh: Vec<Option<H>>, d: u8 },
     /// compress handle a and compare with the model's canonical encoding (plus representation invariants)
     Cmp { g: u8, a: H },
     Eq { g: u8, a: H, b: H },
@@ -231,6 +236,8 @@ impl Step {
             Step::MulBase { .. } => "MulBase",
             Step::Clamp { .. } => "Clamp",
             Step::Table { .. } => "Table",
+            Step::TUse { .. } => "TUse",
+            Step::PUse { .. } => "PUse",
             Step::Dbl2 { .. } => "Dbl2",
             Step::Msm { .. } => "Msm",
             Step::Pre { .. } => "Pre",
